@@ -54,6 +54,9 @@ def normalize_screen_name(username):
     if username.startswith("@"):
         username = username[1:]
 
+    if not username:
+        return None
+
     return username.lower()
 
 
